@@ -59,16 +59,135 @@ def _mesh_test(test):
     return None
 
 
-def _ds_keys(node, dsname):
-    out = set()
-    for n in ast.walk(node):
-        if isinstance(n, ast.Subscript) and isinstance(n.value, ast.Name) and n.value.id == dsname and str_const(n.slice) is not None:
-            out.add(str_const(n.slice))
+def _module_str_consts(module):
+    """module-level NAME = ("a", "b", ...) / NAME = "a" tables"""
+    out = {}
+    for st in module.tree.body:
+        if isinstance(st, ast.Assign) and len(st.targets) == 1 and isinstance(st.targets[0], ast.Name):
+            v = st.value
+            if isinstance(v, (ast.Tuple, ast.List, ast.Set)) and all(str_const(e) is not None for e in v.elts):
+                out[st.targets[0].id] = tuple(str_const(e) for e in v.elts)
+            elif str_const(v) is not None:
+                out[st.targets[0].id] = str_const(v)
     return out
 
 
+def _specialise(expr, w):
+    """resolve  a if mesh_type == "<x>" else b  for mesh type w (copy of the expression)"""
+    class T(ast.NodeTransformer):
+        def visit_IfExp(self, n):
+            self.generic_visit(n)
+            mt = _mesh_test(n.test)
+            if mt is None:
+                return n
+            return n.body if mt == w else n.orelse
+    import copy
+    return T().visit(copy.deepcopy(expr))
+
+
+def _decide(test, env, consts):
+    """True/False/None for  name in CONST,  name == "lit",  name != "lit",  not <t>  with name bound in env"""
+    if isinstance(test, ast.UnaryOp) and isinstance(test.op, ast.Not):
+        r = _decide(test.operand, env, consts)
+        return None if r is None else (not r)
+    if isinstance(test, ast.Compare) and len(test.ops) == 1 and isinstance(test.left, ast.Name) and test.left.id in env:
+        v = env[test.left.id]
+        rhs = test.comparators[0]
+        if isinstance(rhs, ast.Name) and isinstance(consts.get(rhs.id), tuple):
+            coll = consts[rhs.id]
+        elif isinstance(rhs, (ast.Tuple, ast.List, ast.Set)) and all(str_const(e) is not None for e in rhs.elts):
+            coll = tuple(str_const(e) for e in rhs.elts)
+        elif str_const(rhs) is not None:
+            coll = None
+        else:
+            return None
+        op = test.ops[0]
+        if isinstance(op, ast.In) and coll is not None:
+            return v in coll
+        if isinstance(op, ast.NotIn) and coll is not None:
+            return v not in coll
+        if isinstance(op, ast.Eq) and coll is None:
+            return v == str_const(rhs)
+        if isinstance(op, ast.NotEq) and coll is None:
+            return v != str_const(rhs)
+    return None
+
+
+def _ds_keys(node, dsname, env=None, module=None, depth=0):
+    """(set of dataset keys read by the expression, opaque?)  -- direct  ds["k"] / ds[name bound to a literal]  reads, and reads made by same-module
+    helpers that receive the dataset (inlined with literal arguments bound; undecidable guards around reads make the result opaque)."""
+    env = env or {}
+    out = set()
+    opaque = False
+    for n in ast.walk(node):
+        if isinstance(n, ast.Subscript) and isinstance(n.value, ast.Name) and n.value.id == dsname:
+            k = str_const(n.slice)
+            if k is None and isinstance(n.slice, ast.Name) and n.slice.id in env:
+                k = env[n.slice.id]
+            if k is not None:
+                out.add(k)
+            else:
+                opaque = True
+        elif isinstance(n, ast.Call):
+            passes = [i for i, a in enumerate(n.args) if isinstance(a, ast.Name) and a.id == dsname] + [k.arg for k in n.keywords if isinstance(k.value, ast.Name) and k.value.id == dsname]
+            if not passes:
+                continue
+            h = module.defs.get(n.func.id) if (module is not None and isinstance(n.func, ast.Name)) else None
+            if not isinstance(h, FuncInfo) or depth >= 2:
+                opaque = True
+                continue
+            hp = h.params()
+            henv = {}
+            hds = None
+            for i, a in enumerate(n.args):
+                if i >= len(hp):
+                    continue
+                if isinstance(a, ast.Name) and a.id == dsname:
+                    hds = hp[i]
+                elif str_const(a) is not None:
+                    henv[hp[i]] = str_const(a)
+                elif isinstance(a, ast.Name) and a.id in env:
+                    henv[hp[i]] = env[a.id]
+            for k in n.keywords:
+                if isinstance(k.value, ast.Name) and k.value.id == dsname:
+                    hds = k.arg
+                elif k.arg and str_const(k.value) is not None:
+                    henv[k.arg] = str_const(k.value)
+            consts = _module_str_consts(module)
+
+            def hwalk(stmts):
+                nonlocal opaque
+                for st in stmts:
+                    if isinstance(st, ast.If):
+                        r = _decide(st.test, henv, consts)
+                        if r is True:
+                            hwalk(st.body)
+                        elif r is False:
+                            hwalk(st.orelse)
+                        else:
+                            k0 = len(out)
+                            before = set(out)
+                            hwalk(st.body)
+                            hwalk(st.orelse)
+                            if out != before:
+                                opaque = True
+                        continue
+                    if isinstance(st, (ast.For, ast.While, ast.With, ast.Try)):
+                        for fld in ("body", "orelse", "finalbody"):
+                            hwalk(getattr(st, fld, []) or [])
+                        continue
+                    ks, op = _ds_keys(st, hds, henv, module, depth + 1)
+                    out.update(ks)
+                    opaque = opaque or op
+            if hds is None:
+                opaque = True
+            else:
+                hwalk(h.node.body)
+    return out, opaque
+
+
 def mpas_function_table(f: FuncInfo):
-    """{mesh_type: {target: set(source keys)}} for one _parse_* function (branch-aware, def-use over locals)."""
+    """{mesh_type: {target: (set(source keys), statement, opaque?)}} for one _parse_* function (branch-aware, def-use over locals)."""
     params = f.params()
     if len(params) < 2:
         return {}
@@ -77,13 +196,12 @@ def mpas_function_table(f: FuncInfo):
     result = {"primal": {}, "dual": {}}
 
     def walk(stmts, which, defs):
-        """defs: local name -> set(source keys) on this branch"""
+        """defs: mesh type -> local name -> (source keys, opaque) on this branch"""
         for st in stmts:
             if isinstance(st, ast.If):
                 mt = _mesh_test(st.test)
                 if mt is not None:
                     other = "dual" if mt == "primal" else "primal"
-                    d1 = {k: dict(v) for k, v in defs.items()}
                     walk(st.body, [w for w in which if w == mt], defs)
                     walk(st.orelse, [w for w in which if w == other], defs)
                     continue
@@ -91,21 +209,24 @@ def mpas_function_table(f: FuncInfo):
                 walk(st.orelse, which, defs)
                 continue
             if isinstance(st, ast.Assign):
-                srcs_direct = _ds_keys(st.value, in_ds)
-                used = {n.id for n in ast.walk(st.value) if isinstance(n, ast.Name)}
                 for w in which:
-                    srcs = set(srcs_direct)
+                    val = _specialise(st.value, w)
+                    srcs, opaque = _ds_keys(val, in_ds, {}, f.module)
+                    srcs = set(srcs)
+                    used = {n.id for n in ast.walk(val) if isinstance(n, ast.Name)}
                     for u in used:
-                        srcs |= defs.setdefault(w, {}).get(u, set())
+                        s_, o_ = defs.setdefault(w, {}).get(u, (set(), False))
+                        srcs |= s_
+                        opaque = opaque or o_
                     for t in st.targets:
                         if isinstance(t, ast.Name):
-                            defs.setdefault(w, {})[t.id] = srcs
+                            defs.setdefault(w, {})[t.id] = (srcs, opaque)
                         elif isinstance(t, ast.Subscript) and isinstance(t.value, ast.Name) and t.value.id == out_ds and str_const(t.slice):
-                            result[w][str_const(t.slice)] = (srcs, st)
+                            result[w][str_const(t.slice)] = (srcs, st, opaque)
                         elif isinstance(t, ast.Tuple):
                             for e in t.elts:
                                 if isinstance(e, ast.Name):
-                                    defs.setdefault(w, {})[e.id] = srcs
+                                    defs.setdefault(w, {})[e.id] = (srcs, opaque)
 
     walk(f.node.body, ["primal", "dual"], {})
     return result, has_mt
@@ -150,7 +271,7 @@ def check_mpas_roles(run, program, targets=None, rule="F-TABLE/mpas-roles"):
                 continue
             if has_mt and passed != driver_mt:
                 run.violation(rule, f"{drv.key}:call({f.name}):mesh_type", where(drv, call), f"{drv.name} calls {f.name} with mesh_type='{passed}'")
-            for target, (srcs, st) in sorted(table[eff].items()):
+            for target, (srcs, st, opaque) in sorted(table[eff].items()):
                 if targets is not None and target not in targets:
                     continue
                 want = MPAS_ROLES[driver_mt].get(target)
@@ -167,7 +288,10 @@ def check_mpas_roles(run, program, targets=None, rule="F-TABLE/mpas-roles"):
                     msg = f"on the {driver_mt} mesh {target} is built from {sorted(got)}; the MPAS mesh specification assigns {sorted(want)}"
                     if missing and not extra and missing == ["nEdgesOnCell"]:
                         msg += " (rows are padded by repeating indices beyond nEdgesOnCell: without it padding is read as real entries)"
-                    run.violation(rule, c, where(f, st), msg, facts={"extra": extra, "missing": missing})
+                    if opaque:
+                        run.incomplete(rule, c, where(f, st), msg + " -- but part of the dataset access is not understood (dataset passed to an unknown helper, computed key, or undecidable guard)")
+                    else:
+                        run.violation(rule, c, where(f, st), msg, facts={"extra": extra, "missing": missing})
     return n
 
 
